@@ -2,9 +2,11 @@
    field-type classes (flow/record/fieldtypes/__init__.py, fieldtypes/net/ip.py), typedlist, and
    Record.__setattr__ / the generated __init__ / Record._replace (flow/record/base.py).
 
-   The model is FAITHFUL to the code as it is, defects included (boolean accepts every number v with
-   0 <= v <= 1; uint16/uint32 keep the caller's float as the packed value; digest built from anything that
-   is not a tuple/list/dict is silently empty; text with a lone surrogate is accepted).
+   The model is FAITHFUL to the code as it is, defects included (text with a lone surrogate is accepted).
+   Three former defects are repaired in the code; the model follows the generated facts, so with the facts
+   of the unrepaired code (f_uint_integral = false and f_uint_keeps_arg = true, f_bool_integral = false,
+   f_digest_else_empty = true) it shows the old behaviour: uint16(5.7) keeps 5.7 as packed value,
+   boolean(0.5) is accepted, digest(<text>) is silently empty.
 
    Two parameters:
    * [facts]  -- shapes and constants read from the source on every run (GENERATED: gen/Gen_coerce.v);
@@ -132,11 +134,14 @@ Record facts := {
   f_uint16 : bound;                (* uint16.__init__: `value < 0 or value > 0xFFFF` *)
   f_uint32 : bound;
   f_boolean : bound;               (* boolean.__init__: `value < 0 or value > 1` *)
-  f_uint_keeps_arg : bool;         (* uint16/uint32: `self.value = value` (the argument itself) *)
+  f_uint_integral : bool;          (* uint16/uint32: `if value != int(self): raise` after the range test *)
+  f_bool_integral : bool;          (* boolean: `... or value != int(self)` in the range test *)
+  f_uint_keeps_arg : bool;         (* uint16/uint32: `self.value = value` (the argument itself); false: int(self) *)
   f_bytes_isinstance : bool;       (* bytes.__init__ raises unless isinstance(value, bytes_type) *)
   f_str_decodes_bytes : bool;      (* string.__new__ decodes bytes with errors="surrogateescape" *)
   f_digest_len : Z * Z * Z;        (* lengths demanded by the md5 / sha1 / sha256 setters *)
-  f_digest_else_empty : bool;      (* digest.__init__ has no branch for other kinds: they give an empty digest *)
+  f_digest_else_empty : bool;      (* digest.__init__ has no branch for other kinds: they give an empty digest;
+                                      false: `elif value is not None: raise TypeError` *)
   f_sa_guard_none : bool;          (* Record.__setattr__: None is stored without conversion *)
   f_sa_convert_before_store : bool;(* the only store is the final super().__setattr__, after the conversion *)
   f_tl_convert : bool;             (* typedlist._convert applies the element type to every element ... *)
@@ -205,6 +210,10 @@ Definition truthy_num (v : numv) : bool :=
   | NF (FFinite fl i) => negb ((fl =? 0) && i)
   | NF _ => true
   end.
+
+(* value == int(self) for a number that int() accepted *)
+Definition num_integral (v : numv) : bool :=
+  match v with NZ _ => true | NF (FFinite _ i) => i | NF _ => false end.
 
 Definition bits_of_bool (b : bool) : N := if b then 4607182418800017408%N else 0%N.   (* 1.0 / 0.0 *)
 
@@ -295,14 +304,19 @@ Definition co_uint (b : bound) (v : pv) : result sval :=
   bind (int_new v) (fun obj =>
     match num_of v with
     | None => Raise ETypeError
-    | Some n => if out_of_range b n then Raise EValueError else Ok (SUInt obj (uval_of v obj))
+    | Some n =>
+        if out_of_range b n then Raise EValueError
+        else if f_uint_integral F && negb (num_integral n) then Raise EValueError
+        else Ok (SUInt obj (uval_of v obj))
     end).
 
 Definition co_boolean (v : pv) : result sval :=
   bind (int_new v) (fun obj =>
     match num_of v with
     | None => Raise ETypeError
-    | Some n => if out_of_range (f_boolean F) n then Raise EValueError else Ok (SBool obj (truthy_num n))
+    | Some n =>
+        if out_of_range (f_boolean F) n || (f_bool_integral F && negb (num_integral n)) then Raise EValueError
+        else Ok (SBool obj (truthy_num n))
     end).
 
 (* string(v): bytes are decoded with surrogateescape, everything else goes through str() *)
@@ -400,6 +414,7 @@ Definition co_digest (v : pv) : result sval :=
   | PList [a; b; c] | PTuple [a; b; c] => digest3 a b c
   | PList _ | PTuple _ => Raise EValueError
   | PDict kvs => digest3 (dict_get kvs "md5") (dict_get kvs "sha1") (dict_get kvs "sha256")
+  | PNone => Ok (SDigest None None None)
   | _ => if f_digest_else_empty F then Ok (SDigest None None None) else Raise ETypeError
   end.
 
@@ -481,11 +496,44 @@ Definition coerce_flat (t : ftype) (v : pv) : result sval :=
   | _ => coerce_base t v
   end.
 
+(* an instance of ANOTHER field-type class handed to the constructor of t behaves as the builtin value it
+   extends (string -> str, varint / uint16 / uint32 / boolean -> int, bytes -> bytes, datetime, path); only
+   str() sees the instance's own __str__ / __repr__ (boolean prints True, filesize a human-readable size), so
+   that answer is asked of the runtime for the instance itself.  Other classes (digest, addresses, commands,
+   floats, lists) are not covered: the model refuses them. *)
+Definition lower (s : sval) : option pv :=
+  match s with
+  | SStr e l => Some (PStr e l)
+  | SInt z => Some (PInt z)
+  | SUInt obj _ => Some (PInt obj)
+  | SBool obj _ => Some (PInt obj)
+  | SBytes b => Some (PBytes b)
+  | SDt w off => Some (PDatetime w off)
+  | SPath w t _ => Some (PPath w t)
+  | _ => None
+  end.
+
+Definition is_text_or_bytes (v : pv) : bool := match v with PStr _ _ | PBytes _ => true | _ => false end.
+
+Definition coerce_cross (t : ftype) (orig low : pv) : result sval :=
+  match t with
+  | TString => if is_text_or_bytes low then co_string low else let (s, l) := e_str E orig in Ok (SStr s l)
+  | TUri =>
+      if is_text_or_bytes low then co_uri low
+      else if e_uri E low then (let (s, l) := e_str E orig in Ok (SStr s l)) else Raise EAttributeError
+  | TRecord => Ok (SPass orig)
+  | _ => coerce_flat t low
+  end.
+
 (* <class of t>(v) as Record.__setattr__ / typedlist._convert apply it: an instance of the class is kept *)
 Fixpoint coerce (t : ftype) (v : pv) {struct v} : result sval :=
   match v with
   | PTyped c p =>
-      if instance_of c t || ftype_eqb t TDynamic then coerce c p else Raise ETypeError
+      if instance_of c t || ftype_eqb t TDynamic then coerce c p
+      else match coerce c p with
+           | Raise e => Raise e
+           | Ok s0 => match lower s0 with Some low => coerce_cross t v low | None => Raise ETypeError end
+           end
   | _ =>
     match t with
     | TList e =>
@@ -648,28 +696,19 @@ Definition slot_ok (sl : slot) : bool :=
 
 Definition well_typed (r : record) : bool := forallb slot_ok r.
 
-(* candidate classes *)
-Definition in_unit_float (v : pv) : bool :=      (* a float strictly between 0 and 1 *)
-  match v with PFloat _ (FFinite fl i) => (fl =? 0) && negb i | _ => false end.
-Definition is_float (v : pv) : bool := match v with PFloat _ _ => true | _ => false end.
-Definition is_container (v : pv) : bool := match v with PList _ | PTuple _ | PDict _ => true | _ => false end.
-
-(* the classes of the KNOWN FINDINGS, and (for the pass-through type) candidates outside the property's
-   quantifier: a value passes [cand_ok t] when it is in none of them *)
+(* the property's quantifier for the pass-through type `record`: the candidates are records (None is handled
+   by setattr / the constructor); for every other type ALL values pass *)
 Fixpoint cand_ok (t : ftype) (v : pv) {struct v} : bool :=
   match v with
-  | PTyped c p => cand_ok c p && negb (ftype_eqb c TRecord)
+  | PTyped c p => cand_ok c p && negb (ftype_eqb c TRecord) && negb (ftype_eqb t TRecord)
   | _ =>
     match t with
-    | TUint16 | TUint32 => negb (is_float v)             (* finding: a float is kept as the packed value *)
-    | TBoolean => negb (in_unit_float v)                 (* finding: 0 < v < 1 is accepted *)
-    | TDigest => is_container v                          (* finding: any other kind gives an empty digest *)
-    | TRecord => is_record v                             (* quantifier: records (None is handled by setattr) *)
+    | TRecord => is_record v
     | TList e =>
         match v with
         | PList l | PTuple l => forallb (cand_ok e) l
         | PDict kvs => forallb (fun kv => cand_ok e (fst kv)) kvs
-        | PStr _ _ | PBytes _ => match e with TDigest | TRecord => false | _ => true end
+        | PStr _ _ | PBytes _ => match e with TRecord => false | _ => true end
         | _ => true
         end
     | _ => true
@@ -689,6 +728,7 @@ Definition hex_ok (len : Z) (v : pv) : bool :=
 
 Definition digest_wellformed (v : pv) : bool :=
   match v with
+  | PNone => true                                      (* None = the empty digest *)
   | PList [a; b; c] | PTuple [a; b; c] => hex_ok 16 a && hex_ok 20 b && hex_ok 32 c
   | PDict kvs => hex_ok 16 (dict_get kvs "md5") && hex_ok 20 (dict_get kvs "sha1") && hex_ok 32 (dict_get kvs "sha256")
   | _ => false
@@ -701,8 +741,8 @@ Fixpoint unrepresentable (t : ftype) (v : pv) {struct v} : bool :=
   | PTyped _ _ => false
   | _ =>
     match t with
-    | TUint16 => match num_of v with Some n => negb (spec_in_range 0 65535 n) | None => false end
-    | TUint32 => match num_of v with Some n => negb (spec_in_range 0 4294967295 n) | None => false end
+    | TUint16 => match num_of v with Some n => negb (spec_in_range 0 65535 n && num_integral n) | None => false end
+    | TUint32 => match num_of v with Some n => negb (spec_in_range 0 4294967295 n && num_integral n) | None => false end
     | TBoolean =>                                         (* a number other than 0 / 1 *)
         match num_of v with
         | Some (NZ z) => negb ((z =? 0) || (z =? 1))
